@@ -175,6 +175,13 @@ class Recorder:
         self.trace.append(["req", n, req, ok])
         return ok
 
+    def secs(self, ticks):
+        """ticks -> the time value handed to the API: float seconds, or (scenario flag intTime, one tick
+        per second) the integer itself - integer timestamps are legal and exact at any magnitude"""
+        if self.scn.get("intTime"):
+            return int(ticks)
+        return ticks / self.tick
+
     def num(self, x):
         """scenario flag intArgs: integral quantities are handed over as Python ints (a protocol that
         writes `schedule_timer("a", 3)` or `GotoCoordsMobilityCommand(10, 0, 5)` is using the API legitimately)"""
@@ -190,7 +197,7 @@ class Recorder:
             # the public, side-effect free status query, asked from inside callbacks as a UI would
             self.sim.is_simulation_done()
         if op == "setTimer":
-            p.schedule_timer(req[1], self.num(req[2] / self.tick))
+            p.schedule_timer(req[1], self.num(self.secs(req[2])))
         elif op == "cancelTimer":
             p.cancel_timer(req[1])
         elif op == "send":
@@ -318,11 +325,11 @@ def make_handler(rec, label, cfg, sampler):
             # are properties of the medium, read when a message is sent)
             medium = CommunicationMedium(transmission_range=bitsf(cfg["defaultRange"]))
             handler = cls(medium)
-            medium.delay = cfg["delay"] / rec.tick
+            medium.delay = rec.secs(cfg["delay"])
             medium.failure_rate = bitsf(cfg["failRate"])
             return handler
         medium = CommunicationMedium(transmission_range=bitsf(cfg["defaultRange"]),
-                                     delay=cfg["delay"] / rec.tick,
+                                     delay=rec.secs(cfg["delay"]),
                                      failure_rate=bitsf(cfg["failRate"]))
         return cls(medium)
     if label == "mobility" and cfg["hasMob"]:
@@ -352,7 +359,7 @@ def build(scn, rec, sim_options=None):
     opts = dict(execution_logging=False)
     opts.update(scn.get("simOptions") or {})
     opts.update(sim_options or {})
-    duration = None if cfg["duration"] is None else cfg["duration"] / rec.tick
+    duration = None if cfg["duration"] is None else rec.secs(cfg["duration"])
     late = bool(scn.get("lateConfig"))
     # scenario flag lateConfig: the configuration object is handed to the builder first and its bounds
     # are filled in afterwards (the simulator reads the user's configuration object when it needs a bound)
